@@ -1131,11 +1131,26 @@ func (fc *FuncCtx) lockOp(fr *Frame, st *State, recv Value, acquire bool, full s
 		// acquiring a lock we already hold would deadlock
 		fc.oblige(fr, st, "lock.reacquire", "", tNot("(select "+h+" "+ref+")"), pos, "lock is not already held by this activation (self-deadlock)")
 		fc.setComp(st, key, "(Array Int Bool)", "(store "+h+" "+ref+" true)")
+		// read mode (RWMutex.RLock): the lock excludes writers only; a guarded WRITE needs the lock in write mode
+		rm := fc.compTerm(st, "L!R!"+key, "(Array Int Bool)")
+		if strings.HasSuffix(full, ".RLock") {
+			fc.setComp(st, "L!R!"+key, "(Array Int Bool)", "(store "+rm+" "+ref+" true)")
+		} else {
+			fc.setComp(st, "L!R!"+key, "(Array Int Bool)", "(store "+rm+" "+ref+" false)")
+		}
 		st.heldLocks = append(st.heldLocks, key+"|"+ref)
 		fc.monitorEnter(fr, st, owner, field, ref, pos)
 	} else {
 		fc.monitorExit(fr, st, owner, field, ref, pos)
 		fc.oblige(fr, st, "lock.release", "", "(select "+h+" "+ref+")", pos, "unlock of a lock that is held")
+		if strings.HasSuffix(full, "RWMutex).Unlock") || strings.HasSuffix(full, ".RUnlock") {
+			rm := fc.compTerm(st, "L!R!"+key, "(Array Int Bool)")
+			want := "(select " + rm + " " + ref + ")"
+			if strings.HasSuffix(full, "RWMutex).Unlock") {
+				want = tNot(want)
+			}
+			fc.oblige(fr, st, "lock.release", "", want, pos, "an RWMutex is released in the mode it was acquired in (RLock/RUnlock, Lock/Unlock)")
+		}
 		h = fc.compTerm(st, key, "(Array Int Bool)")
 		fc.setComp(st, key, "(Array Int Bool)", "(store "+h+" "+ref+" false)")
 	}
